@@ -166,6 +166,17 @@ def is_namedtuple(repo: Repo, ci: ClassInfo) -> bool:
     return False
 
 
+def is_enum(repo: Repo, ci: ClassInfo) -> bool:
+    for c in repo.mro(ci):
+        if any(str(b).split(".")[-1] in ("Enum", "IntEnum", "StrEnum", "Flag", "IntFlag") for b in c.bases):
+            return True
+    return False
+
+
+def enum_members(repo: Repo, ci: ClassInfo) -> list[str]:
+    return [n for c in reversed(repo.mro(ci)) for n in c.class_attrs if not n.startswith("_")]
+
+
 def is_prop(m: FuncInfo) -> bool:
     return m.is_property or any(d.split(".")[-1] in ("cached_property", "lazy_property") for d in m.decorators)
 
@@ -174,6 +185,8 @@ def term_of(v: Val) -> tuple:
     if isinstance(v, Sym):
         return v.term
     if isinstance(v, Const):
+        if isinstance(v.value, tuple) and v.value[:1] == ("enum",):
+            return ("const", f"{str(v.value[1]).split('.')[-1]}.{v.value[2]}")
         return ("const", repr(v.value))
     if isinstance(v, Tup):
         return ("tuple", *[term_of(x) for x in v.items])
@@ -343,6 +356,8 @@ class Interp:
                 return FALSE
             if all(g == TRUE for _x, g in v.entries) and not any(isinstance(x, Sym) and any(isinstance(st, tuple) and st and st[0] in ("elem", "key", "val") for st in subterms(x.term)) for x, _g in v.entries):
                 return TRUE  # holds elements that were put there unconditionally and not by a symbolic iteration
+            if not any(any(isinstance(st, tuple) and st and st[0] in ("elem", "key", "val") for st in subterms(term_of(x))) for x, _g in v.entries) and f"removed(coll#{v.serial})" not in self.atom_info:
+                return f_or([g for _x, g in v.entries])  # each element is there exactly when its own condition holds
             a = self.mk_atom(f"nonempty(coll#{v.serial})", kind="nonempty", coll=v)
             if a[0] == "atom":
                 self.atom_info[a[1]]["witnesses"] = [g for _x, g in v.entries]
@@ -461,7 +476,7 @@ class Interp:
             elif isinstance(lv, Const) and lv.value is None:
                 f = self.is_none(rv)
             elif isinstance(lv, Const) and isinstance(rv, Const):
-                f = TRUE if lv.value is rv.value else FALSE
+                f = TRUE if (lv.value is rv.value or (type(lv.value) is type(rv.value) and isinstance(lv.value, (tuple, str, bool, int)) and lv.value == rv.value)) else FALSE
             elif lv is rv:
                 f = TRUE
             else:
@@ -516,6 +531,10 @@ class Interp:
                 return TRUE  # a key obtained by iterating this very mapping
         if isinstance(container, (Coll, DictV)) and not container.entries:
             return FALSE
+        if isinstance(container, Coll) and isinstance(item, Const) and all(isinstance(x, Const) for x, _g in container.entries):
+            return f_or([g for x, g in container.entries if x.value == item.value and type(x.value) is type(item.value)])
+        if isinstance(container, DictV) and isinstance(item, Const) and all(isinstance(k, Const) for k, _x, _g in container.entries):
+            return f_or([g for k, _x, g in container.entries if k.value == item.value and type(k.value) is type(item.value)])
         if isinstance(container, Tup) and isinstance(item, Const) and all(isinstance(x, Const) for x in container.items):
             return TRUE if any(x.value == item.value for x in container.items) else FALSE
         if isinstance(container, DictV):
@@ -554,6 +573,8 @@ class Interp:
             if t is not None:
                 return [(x, TRUE) for x in t.items]
             return self.iterate_object(v)
+        if isinstance(v, ClsV) and is_enum(self.repo, v.ci):
+            return [(Const(("enum", v.ci.fq, n)), TRUE) for n in enum_members(self.repo, v.ci)]
         return None
 
     def as_tuple(self, v: Val) -> "Tup | None":
@@ -777,13 +798,23 @@ class Interp:
             return Fn(self.lambda_func(e, fr), None, fr)
         if isinstance(e, ast.JoinedStr):
             parts = []
+            vals = []
             for p in e.values:
                 if isinstance(p, ast.Constant):
                     parts.append(("const", repr(p.value)))
+                    vals.append(Const(p.value))
                 elif isinstance(p, ast.FormattedValue):
-                    parts.append(term_of(self.eval(p.value, fr)))
+                    pv = self.eval(p.value, fr)
+                    if isinstance(pv, Const) and isinstance(pv.value, tuple) and pv.value[:1] == ("enum",):
+                        pv = Sym(("enumstr", pv.value[1], pv.value[2]))
+                    parts.append(term_of(pv))
+                    vals.append(pv)
             if all(p[0] == "const" for p in parts):
-                return Const("".join(ast.literal_eval(p[1]) for p in parts))
+                return Const("".join(str(ast.literal_eval(p[1])) for p in parts))
+            # a name put together from a finite set of strings (`f"_judge_{verb}"` with the verb chosen by a condition)
+            if all(isinstance(v, Const) or (isinstance(v, Alt) and all(isinstance(o, Const) and isinstance(o.value, str) for _g, o in v.options)) for v in vals) and sum(isinstance(v, Alt) for v in vals) == 1:
+                alt = next(v for v in vals if isinstance(v, Alt))
+                return self.mk_alt([(g, Const("".join(str(o.value) if v is alt else str(v.value) for v in vals))) for g, o in alt.options])
             return Sym(("fstr", *parts))
         if isinstance(e, ast.BinOp):
             a, b = self.eval(e.left, fr), self.eval(e.right, fr)
@@ -791,6 +822,29 @@ class Interp:
                 c = Coll(a.kind, list(a.entries), self.serial())
                 c.entries += self.iterate(b) or []
                 return c
+            if isinstance(a, Coll) and isinstance(b, (Coll, Tup)) and isinstance(e.op, (ast.BitAnd, ast.Sub, ast.BitXor)):
+                # set algebra over concrete elements (sets of flags, verbs, enum members, names)
+                ea, eb = a.entries, (b.entries if isinstance(b, Coll) else [(x, TRUE) for x in b.items])
+                if all(isinstance(x, Const) and g == TRUE for x, g in [*ea, *eb]):
+                    inb = {repr(x.value) for x, _g in eb}
+                    ina = {repr(x.value) for x, _g in ea}
+                    if isinstance(e.op, ast.BitAnd):
+                        keep = [(x, g) for x, g in ea if repr(x.value) in inb]
+                    elif isinstance(e.op, ast.Sub):
+                        keep = [(x, g) for x, g in ea if repr(x.value) not in inb]
+                    else:
+                        keep = [(x, g) for x, g in ea if repr(x.value) not in inb] + [(x, g) for x, g in eb if repr(x.value) not in ina]
+                    out_c = Coll(a.kind, keep, self.serial())
+                    out_c.literal = not keep  # type: ignore[attr-defined]
+                    return out_c
+                if isinstance(e.op, ast.BitAnd) and all(isinstance(x, Const) and g == TRUE for x, g in eb):
+                    # membership of each (conditionally added) element of `a` in a concrete set
+                    inb = {repr(x.value) for x, _g in eb}
+                    if all(isinstance(x, Const) for x, _g in ea):
+                        return Coll(a.kind, [(x, g) for x, g in ea if repr(x.value) in inb], self.serial())
+                if isinstance(e.op, ast.BitAnd) and all(isinstance(x, Const) and g == TRUE for x, g in ea) and all(isinstance(x, Const) for x, _g in eb):
+                    ina = {repr(x.value) for x, _g in ea}
+                    return Coll(a.kind, [(x, g) for x, g in eb if repr(x.value) in ina], self.serial())
             if isinstance(a, Coll) and isinstance(b, (Coll, Tup, Sym)) and isinstance(e.op, ast.Sub):
                 # set difference: the elements of `a` that are kept (which ones is not modelled)
                 return Coll(a.kind, [(x, f_and([gx, self.mk_atom(f"kept-by-difference({show_term(term_of(x))})", kind="setop", node=e)])) for x, gx in a.entries], self.serial())
@@ -938,6 +992,8 @@ class Interp:
         t_ = self.as_tuple(v)
         if t_ is not None:
             v = t_
+        if isinstance(v, ClsV) and is_enum(self.repo, v.ci) and isinstance(idx, Const) and idx.value in enum_members(self.repo, v.ci):
+            return Const(("enum", v.ci.fq, idx.value))
         if isinstance(idx, BoolF) and isinstance(v, (Tup, DictV, Coll)):
             # a two-way table selected by a condition: `("objects", "subjects")[flag]`, `{True: a, False: b}[flag]`
             return self.mk_alt([(idx.f, self._index_const(v, True, node)), (f_not(idx.f), self._index_const(v, False, node))])
@@ -1002,6 +1058,24 @@ class Interp:
             if attr == "__class__":
                 return ClsV(v.cls)
             v.entry_reads.add(attr)
+            return Sym(("attr", term_of(v), attr))
+        if isinstance(v, ClsV) and is_enum(self.repo, v.ci) and attr in enum_members(self.repo, v.ci):
+            return Const(("enum", v.ci.fq, attr))
+        if isinstance(v, Const) and isinstance(v.value, tuple) and v.value[:1] == ("enum",):
+            eci = self.repo.classes.get(v.value[1])
+            if attr == "name":
+                return Const(v.value[2])
+            if eci is not None and attr in ("value", "_value_"):
+                for c in self.repo.mro(eci):
+                    if v.value[2] in c.class_attrs:
+                        val = self.eval_in_module(c.class_attrs[v.value[2]], c)
+                        return val if isinstance(val, (Const, Tup)) else Sym(("enumvalue", v.value[1], v.value[2]))
+            if eci is not None:
+                m = self.repo.lookup_method(eci, attr)
+                if m is not None:
+                    if is_prop(m):
+                        return self.invoke(m, v, [], {}, None, node, fr)
+                    return Fn(m, None if m.is_staticmethod else ClsV(eci) if m.is_classmethod else v)
             return Sym(("attr", term_of(v), attr))
         if isinstance(v, ClsV):
             m = self.repo.lookup_method(v.ci, attr)
@@ -1153,6 +1227,8 @@ class Interp:
             t = fv.term
             if t[0] == "lib":
                 return self.lib_call(t[1], args, kwargs, node, fr)
+            if t[0] == "attr" and isinstance(t[1], tuple) and t[1][:1] == ("builtin",) and t[1][1] in ("set", "frozenset", "list", "dict", "tuple", "str") and args and isinstance(args[0], (Coll, DictV, Tup, Const)):
+                return self.builtin_method(args[0], t[2], list(args[1:]), kwargs, node, fr)  # unbound method: set.union(a, b)
             if t[0] == "attr":
                 recv = Sym(t[1], None) if isinstance(t[1], tuple) else None
                 name = t[2]
@@ -1169,6 +1245,7 @@ class Interp:
                 return self.opaque_call(name, recv, args, kwargs, node, fr)
             if t[0] == "builtin":
                 return self.builtin(t[1], args, kwargs, node, fr)
+
             return self.opaque_call(show_term(t), None, args, kwargs, node, fr)
         return self.opaque_call(show_term(term_of(fv)), None, args, kwargs, node, fr)
 
@@ -1268,6 +1345,18 @@ class Interp:
         return None
 
     def instantiate(self, ci: ClassInfo, args: list, kwargs: dict, node: ast.AST | None, fr: Frame | None) -> Val:
+        if is_enum(self.repo, ci) and len(args) == 1 and not kwargs:
+            a = args[0]
+            if isinstance(a, Const) and isinstance(a.value, tuple) and a.value[:1] == ("enum",):
+                return a
+            if isinstance(a, Alt):
+                return self.mk_alt([(g, self.instantiate(ci, [o], {}, node, fr)) for g, o in a.options])
+            if isinstance(a, Const):
+                for n in enum_members(self.repo, ci):
+                    mv = self.getattr(Const(("enum", ci.fq, n)), "value", node, fr)
+                    if isinstance(mv, Const) and mv.value == a.value and type(mv.value) is type(a.value):
+                        return Const(("enum", ci.fq, n))
+            return Sym(("new", ci.name, term_of(a)), ci.fq)
         init = self.repo.lookup_method(ci, "__init__")
         is_dc = any(c.is_dataclass for c in self.repo.mro(ci))
         if init is not None and self.descend(init):
@@ -1535,6 +1624,30 @@ class Interp:
             return DictV([], self.serial())
         if fq == "functools.partial" and a0 is not None:
             return Partial(a0, list(args[1:]), dict(kwargs))
+        if fq == "functools.reduce" and len(args) >= 2:
+            ents = self.iterate(args[1])
+            if ents is not None and len(ents) <= MAX_ENTRIES and not isinstance(args[1], Sym):
+                items = list(ents)
+                if len(args) > 2:
+                    acc = args[2]
+                elif items and items[0][1] == TRUE:
+                    acc = items.pop(0)[0]
+                else:
+                    acc = None
+                if acc is not None:
+                    for x, g in items:
+                        if g == TRUE:
+                            acc = self.apply(args[0], [acc, x], {}, node, fr)
+                        else:
+                            self.path.append(g)
+                            nxt = self.apply(args[0], [acc, x], {}, node, fr)
+                            self.path.pop()
+                            acc = self.mk_alt([(g, nxt), (f_not(g), acc)])
+                    return acc
+        if fq in ("operator.or_", "operator.and_", "operator.add", "operator.sub", "operator.concat") and len(args) == 2 and fr is not None:
+            op = {"or_": ast.BitOr(), "and_": ast.BitAnd(), "add": ast.Add(), "sub": ast.Sub(), "concat": ast.Add()}[fq.split(".")[-1]]
+            tmp = Frame(fr.fi, {"__a": args[0], "__b": args[1]}, fr.selfv, None, fr.base)
+            return self.eval(ast.BinOp(left=ast.Name(id="__a", ctx=ast.Load()), op=op, right=ast.Name(id="__b", ctx=ast.Load())), tmp)
         if fq == "operator.itemgetter" and args:
             return Getter("item", list(args))
         if fq == "operator.attrgetter" and args and all(isinstance(a, Const) and isinstance(a.value, str) for a in args):
